@@ -76,6 +76,14 @@ HAND = [
     ('share_chain', "def f(a, b, c):\n    x = a < 5 < b\n    y = 0 <= a + 1 < b * 2 <= c[0] < 100 != a\n    if a < 'm' < b or not 1 < c.v <= 2.5:\n        x = a is None is not b\n    while 0 < a < (10, 2)[0]:\n        a -= 1\n    assert a < -1 < b, 'msg'\n    z = [i for i in c if 0 < i < 9]\n    g = lambda q: 1 < q < 3\n    return x, y, z, g, a < f(1, k=2) < b, a in (1, 2) in c\n"),
     ('share_aug', "def f(a, b, c):\n    b[0] += 1\n    b[-1] -= a\n    c[0].v += 2\n    c[0].v[1] *= 3\n    b['k'][2] = b['k'][2] + 1\n    c[1].l.append(a)\n    c[2].m[3].append(4)\n    x = c.q.l.pop()\n    for i in a:\n        b[0] += i\n        c[0].v[1] **= 2\n    return b, c, x\n"),
     ('share_call', "def f(a, b, c):\n    x = g(1, a, *b[0], k=2, **c[1])\n    y = a.h(1)(2)[3](k=(4, 5))\n    if g(0) < g(1) < g(2):\n        x = y if g(3) else g(4)\n    for i in g(5, 6):\n        if i < 7 < x:\n            continue\n        if 8 > i > 9:\n            break\n        y = i\n    return x and 1 < y < 2 or g(10)\n"),
+    # docstrings: to_code must show the loaded module's text (inspect.getsource + dedent)
+    ('doc_one', 'def f(a, b, c):\n    """One line."""\n    if a:\n        return b\n    return c\n'),
+    ('doc_multi4', 'def f(a, b, c):\n    """Summary.\n\n    Negative numbers and zero are returned unchanged; the rest is doubled.\n      deeper line\n    """\n    if a > 0:\n        a = a * 2\n    return a\n'),
+    ('doc_multi2', 'def f(a, b, c):\n  """Summary of a 2-space file.\n\n  Args:\n    a: a number\n  """\n  while a > 0:\n    a = a - 1\n  return a\n'),
+    ('doc_multi8', 'def f(a, b, c):\n        """Summary of an 8-space file.\n\n        continuation at eight\n            and twelve columns\n        """\n        for i in a:\n                b = b + i\n        return b\n'),
+    ('doc_flush', 'def f(a, b, c):\n    """Table:\n\nx > 0   -> 2 * x\nx <= 0  -> x\n \\ttab and \\\\ backslash, \'quote\', "dq"\n"""\n    if a > 0:\n        return 2 * a\n    return a\n'),
+    ('doc_nested', 'def f(a, b, c):\n    """Outer\n  shallow (2)\n            deep (12)\n    """\n    def g(x):\n        """Inner helper.\n\n      six columns\nflush left\n        """\n        if x:\n            return 1\n        return 2\n    class K:\n        """Class doc\n    four\n        """\n        def m(self):\n            """Method doc.\n  two\n            """\n            return 1\n    return g(a), K\n'),
+    ('doc_deep', 'def make():\n    if True:\n        def f(a, b, c):\n            """Defined 8 columns deep.\n\n            twelve\n        eight\n            """\n            if a:\n                b = c\n            return b\n        return f\nf = make()\n'),
     ('printcall', 'def f(a, b, c):\n    print(a, len(b), range(c), sep="")\n    return int(a) + float(b) + abs(c)\n'),
 ]
 
@@ -836,9 +844,23 @@ def loaded_checks(api, fn, conv, root, recursive, feats, mon):
     clines = code.split('\n')
     if clines and clines[-1] == '':
         clines = clines[:-1]
-    if textwrap.dedent('\n'.join(flines[first - 1:first - 1 + len(clines)])).split('\n') != clines:
+    # to_code's lines are, up to ONE uniform indentation, the lines of the loaded module starting at
+    # the function's first line (whitespace-only lines may lose their blanks)
+    seg = flines[first - 1:first - 1 + len(clines)]
+    k = (len(seg[0]) - len(clines[0])) if seg and clines else -1
+    bad_line = None
+    if len(seg) != len(clines) or k < 0:
+        bad_line = 0
+    else:
+        for li, (fl, cl) in enumerate(zip(seg, clines)):
+            if fl != ' ' * k + cl and not (fl.strip() == '' and cl.strip() == ''):
+                bad_line = li
+                break
+    if bad_line is not None:
         out.append(('to_code text is not the text of the loaded module file at the function\'s position',
-                    'file %s line %d: %r vs to_code: %r' % (path, first, flines[first - 1:first + 1], clines[:2])))
+                    'file %s line %d: loaded module has %r, to_code line %d is %r' % (
+                        path, first + bad_line, seg[bad_line] if bad_line < len(seg) else None, bad_line + 1,
+                        clines[bad_line] if bad_line < len(clines) else None)))
     # the code that runs is the code of that file
     try:
         mc = compile(file_text, path, 'exec')
@@ -847,13 +869,33 @@ def loaded_checks(api, fn, conv, root, recursive, feats, mon):
             out.append(('code object of the converted function is not the one compiled from the module file', path))
     except SyntaxError as e:
         out.append(('module file does not compile', str(e)))
-    # what to_code shows is the transformed tree
+    # what the loaded module contains at that position (= what to_code shows, by the check above) is the
+    # transformed tree, and the docstring shown is the docstring of the function that runs
     try:
-        shown = ast.parse(textwrap.dedent(code)).body
-        if len(shown) != 1 or cdump(shown[0]) != cdump(root):
-            out.append(('to_code text does not parse to the transformed tree', _first_diff(cdump(root), cdump(shown[0]) if shown else '')))
+        fdefs = [n for n in ast.walk(ast.parse(file_text)) if isinstance(n, ast.FunctionDef) and n.lineno == first
+                 and n.name == conv.__code__.co_name]
+        if len(fdefs) != 1 or cdump(fdefs[0]) != cdump(root):
+            out.append(('loaded module text does not parse to the transformed tree at the function\'s position',
+                        _first_diff(cdump(root), cdump(fdefs[0]) if fdefs else '')))
+        elif ast.get_docstring(fdefs[0], clean=False) != conv.__doc__:
+            out.append(('docstring in the loaded module text is not the __doc__ of the converted function',
+                        '%r vs %r' % (ast.get_docstring(fdefs[0], clean=False), conv.__doc__)))
+        if bad_line is None and fdefs:
+            # the docstring one reads in to_code's text, re-indented by the uniform margin
+            def norm(d):
+                return None if d is None else '\n'.join(x.rstrip() for x in d.split('\n'))
+            try:
+                if k == 0 and not clines[0].startswith(' '):
+                    shown = ast.parse('\n'.join(clines)).body
+                else:
+                    shown = ast.parse('if 1:\n' + '\n'.join(' ' * k + cl for cl in clines)).body[0].body
+                if norm(ast.get_docstring(shown[0], clean=False)) != norm(conv.__doc__):
+                    out.append(('docstring shown by to_code is not the __doc__ of the converted function',
+                                '%r vs %r' % (ast.get_docstring(shown[0], clean=False), conv.__doc__)))
+            except SyntaxError as e:
+                out.append(('to_code text does not parse even after uniform re-indentation', str(e)))
     except SyntaxError as e:
-        out.append(('to_code text does not parse', str(e)))
+        out.append(('module file does not parse', str(e)))
     return out
 
 
